@@ -54,10 +54,11 @@ VARIABLES
   s7,        \* set of nodes on which the signature of known finding S7 occurred
   vrep,      \* node -> time at which it was last handed a replication reply from a voter of its configuration
   rlast,     \* <<node, voter>> -> line of the last replication reply from that voter handed to the node
+  pgr,       \* <<node, send time, term>> -> voters whose prevote grants of that round were handed to the node
   bad        \* set of violation records
 
 vars == <<l, meta, dur, pstate, maxterm, votes, applied, cursor, leaders, lfirst, committed, cterm,
-          reqs, hpre, stat, inv, wdone, rdone, retd, dead, mtrack, mwait, finals, healed, s5, hl, fsmc, taken, sopen, isidx, lastae, s7, vrep, rlast, bad>>
+          reqs, hpre, stat, inv, wdone, rdone, retd, dead, mtrack, mwait, finals, healed, s5, hl, fsmc, taken, sopen, isidx, lastae, s7, vrep, rlast, pgr, bad>>
 
 -----------------------------------------------------------------------------
 Ev == Trace[l]
@@ -484,6 +485,24 @@ NextVrep ==
   ELSE IF Is("reply") /\ Ev.kind \in {"ae", "is"} /\ Ev.to \in Voters THEN Put(vrep, Ev.from, Ev.t)
   ELSE IF (Is("restart") \/ Is("crash")) /\ Ev.node \in DOMAIN vrep THEN Del(vrep, Ev.node)
   ELSE vrep
+\* C16 (mechanism: only a prevote quorum leads to a real candidacy).  A node that raises its term
+\* and votes for itself has, in ONE round of prevote requests for that term (requests of a round
+\* leave at the same instant), been handed grants of voters that form a majority together with
+\* itself.  A node that campaigns without them cannot know that the others are not a healthy
+\* leader with its majority - which it then deposes when it rejoins: the property over all
+\* isolation and rejoin schedules implies this condition on every execution (static membership).
+NextPgr ==
+  IF Is("scenario") THEN <<>>
+  ELSE IF Is("reply") /\ Ev.kind = "rv" /\ Ev.ok /\ Ev.id \in DOMAIN reqs /\ reqs[Ev.id].pre
+    THEN LET key == <<Ev.from, reqs[Ev.id].t, reqs[Ev.id].term>> IN Put(pgr, key, Get(pgr, key, {}) \cup {Ev.to})
+  ELSE pgr
+C16_PrevoteMajority ==
+  IF ~(Is("set_state") /\ ~Has("err") /\ Ev.vote = Ev.node /\ Ev.node \in DOMAIN pstate /\ Ev.term > pstate[Ev.node].term
+       /\ meta.family \notin {"member", "hrv", "hae", "api"} /\ Ev.node \in Voters /\ Cardinality(Voters) > 1) THEN {} ELSE
+    LET n == Ev.node
+        rounds == {k \in DOMAIN pgr : k[1] = n /\ k[3] = Ev.term /\ Majority(pgr[k] \cup {n}, Voters)} IN
+    IF rounds = {} THEN {V("C16", "CandidateWithoutPrevoteMajority", <<n, Ev.term, [k \in {x \in DOMAIN pgr : x[1] = n /\ x[3] = Ev.term} |-> pgr[k]]>>)} ELSE {}
+
 NextRlast ==
   IF Is("scenario") THEN <<>>
   ELSE IF Is("reply") /\ Ev.kind \in {"ae", "is"} THEN Put(rlast, <<Ev.from, Ev.to>>, l)
@@ -783,7 +802,7 @@ NewBad ==
              \cup C03_FutureTruth \cup C03_AtMostOnce \cup C03_RealTime \cup C03_NoInvention
              \cup C04_AckDurable \cup C04_Replay \cup C05_Reads \cup C17_Lease \cup C17_Refusal \cup C14_Abort \cup C14_CatchUp \cup C18_Panic \cup Recorder
              \cup C15_Converge \cup C18_Futures \cup C09_FutureTruth
-             \cup C16_Healthy \cup C10_Snapshot \cup C10_Fsm \cup C11_Log
+             \cup C16_Healthy \cup C16_PrevoteMajority \cup C10_Snapshot \cup C10_Fsm \cup C11_Log
              \cup C09_CfgAgreement \cup C09_LeaderVotes \cup C09_VoteRequests \cup C09_CommitMajority \cup C09_CfgInLog
       \* violations of the replication-safety clauses after the S5 signature carry its tag
       tagged == {IF (s5 \/ KF_S5) /\ b.p \in {"C01", "C02", "C03", "C04", "C05", "C07", "C09", "C15"}
@@ -806,7 +825,7 @@ Init ==
   /\ dur = <<>> /\ pstate = <<>> /\ maxterm = <<>> /\ votes = {} /\ applied = <<>> /\ cursor = <<>>
   /\ leaders = <<>> /\ lfirst = {} /\ committed = <<>> /\ cterm = <<>> /\ reqs = <<>> /\ hpre = <<>> /\ stat = <<>>
   /\ inv = <<>> /\ wdone = {} /\ rdone = {} /\ retd = {} /\ dead = {} /\ mtrack = <<>> /\ mwait = <<>>
-  /\ finals = <<>> /\ healed = FALSE /\ s5 = FALSE /\ hl = NoHealthy /\ fsmc = <<>> /\ taken = {} /\ sopen = <<>> /\ isidx = <<>> /\ lastae = <<>> /\ s7 = {} /\ vrep = <<>> /\ rlast = <<>> /\ bad = {}
+  /\ finals = <<>> /\ healed = FALSE /\ s5 = FALSE /\ hl = NoHealthy /\ fsmc = <<>> /\ taken = {} /\ sopen = <<>> /\ isidx = <<>> /\ lastae = <<>> /\ s7 = {} /\ vrep = <<>> /\ rlast = <<>> /\ pgr = <<>> /\ bad = {}
 
 Next ==
   /\ l <= Len(Trace)
@@ -844,6 +863,7 @@ Next ==
   /\ healed' = (IF Is("scenario") THEN FALSE ELSE IF Is("heal") THEN TRUE ELSE healed)
   /\ vrep' = NextVrep
   /\ rlast' = NextRlast
+  /\ pgr' = NextPgr
   /\ s5' = (IF Is("scenario") THEN FALSE ELSE s5 \/ KF_S5)
   /\ hl' = NextHl
   /\ fsmc' = NextFsmc
